@@ -91,6 +91,10 @@ let hostile_pred (stream_len : int) (end_err : string) (outs : string list) (con
   else if last = "err:eof" && end_err = "eof" && lastc <> stream_len then Some "eof-reported-but-stream-not-fully-consumed"
   else None
 
+(* chunking independence of the error VALUE: for a frame that is complete in the stream, the text of the error NextFrame
+   returns may not depend on how the bytes were split into reads; first text seen per (stream, environment, frame index) *)
+let err_seen : (string, string * string) Hashtbl.t = Hashtbl.create 1024
+
 let run_case (toks : string list) (obs : (string, string list) Hashtbl.t) : string =
   match toks with
   | "dec" :: id :: rest ->
@@ -168,8 +172,24 @@ let run_case (toks : string list) (obs : (string, string list) Hashtbl.t) : stri
                    Some (Printf.sprintf "frame#%d has an invalid length prefix ending at byte %d but %d bytes were consumed" idx limit c)
                  else None
              | _ -> None in
-           (match prefix_problem with
-            | Some why -> Printf.sprintf "PROPFAIL %s sig=bad-prefix-not-fatal %s" id why
+           let errh = split_on ',' (kv "errh" ok) in
+           let text_problem =
+             let nfull = List.length ends in
+             let base = String.concat "/" [ kv "stream" k; kv "max" k; kv "pending" k; kv "protocols" k ] in
+             let rec go i = function
+               | [] -> None
+               | h :: r ->
+                   if i >= nfull || h = "-" || i >= List.length iouts then None else begin
+                     let key = base ^ "#" ^ string_of_int i in
+                     match Hashtbl.find_opt err_seen key with
+                     | None -> Hashtbl.replace err_seen key (h, id); go (i + 1) r
+                     | Some (h0, id0) when h0 <> h ->
+                         Some (Printf.sprintf "frame#%d is complete in the stream; NextFrame's error for it (%s) has a different text here than in case %s, which differs only in how the bytes were split into reads" i (List.nth iouts i) id0)
+                     | Some _ -> go (i + 1) r
+                   end in
+             go 0 errh in
+           (match (match prefix_problem with Some w -> Some ("bad-prefix-not-fatal", w) | None -> (match text_problem with Some w -> Some ("error-depends-on-chunking", w) | None -> None)) with
+            | Some (sg, why) -> Printf.sprintf "PROPFAIL %s sig=%s %s" id sg why
             | None ->
            let cons_bad = ref None in
            List.iteri (fun i e ->
